@@ -176,10 +176,14 @@ def d_alpha(n, alpha):
     """
 
     A = {0.1: 0.00256, 0.05: 0.05256, 0.025: 0.11282}
+    if alpha not in A:
+        raise ValueError(
+            f"no Smirnov critical value tabulated for alpha={alpha}; supported: {sorted(A)}"
+        )
     return (
         np.sqrt(np.log(1 / alpha) / (2 * n))
         - 0.16693 * (1 / n)
-        - A.get(alpha, 1000) * (n ** (-3 / 2))
+        - A[alpha] * (n ** (-3 / 2))
     )
 
 
